@@ -227,11 +227,52 @@ structure NodeOk (p : PendOoo) : Prop where
   wf : OooWf p.body
   clean : cleanOps p.body = true
 
-def nodeDoc (p : PendOoo) : Str := oooDocOps p.body
+/-- A compositional reading of out-of-order programs relative to the set `done` of completed base futures:
+    `P done ops x` — "`x` is an admissible document of `ops`"; `holeOk done fut body fb v` — "the hole of a triple with
+    future `fut`, program `body` and fallback `fb` may show `v`".  Two instances: the final document (`finalSem`) and
+    the partial documents (`partialSem`, Theorems/C07). -/
+structure Sem where
+  P : List FId → List Op → Str → Prop
+  holeOk : List FId → Fut → List Op → Str → Str → Prop
+  nil : ∀ done, P done [] []
+  sync : ∀ {done s os d}, P done os d → P done (Op.sync s :: os) (s ++ d)
+  nextId : ∀ {done os d}, P done os d → P done (Op.nextId :: os) d
+  triple : ∀ {done s fut body nonce os d v}, holeOk done fut body s v → P done os d →
+    P done (Op.nextId :: Op.fallback s :: Op.ooo fut true body nonce :: os) (v ++ d)
+  iteT : ∀ {done fut t e os dt d}, (∀ x ∈ fut.deps, x ∈ done) → P done t dt → P done os d →
+    P done (Op.ite fut t e :: os) (dt ++ d)
+  iteE : ∀ {done fut t e os de d}, oooDocOps t = oooDocOps e → P done e de → P done os d →
+    P done (Op.ite fut t e :: os) (de ++ d)
+  sub : ∀ {done body os db d}, P done body db → P done os d → P done (Op.sub body :: os) (db ++ d)
+  resolve : ∀ {done fut body fb v}, (∀ x ∈ fut.deps, x ∈ done) → P done body v → holeOk done fut body fb v
 
-/-- `σ` knows the document of every node -/
-def Knows (σ : List Nat → Option Str) (ps : List PendOoo) : Prop :=
-  ∀ p ∈ ps, ∀ I, p.id = some I → σ I = some (nodeDoc p)
+/-- `σ` gives every hole that belongs to a node an admissible value -/
+def Adm (S : Sem) (done : List FId) (σ : List Nat → Option Str) (D : List Seg) (out : List PendOoo) : Prop :=
+  ∀ I fb, Seg.hole I fb ∈ D → ∀ p ∈ out, p.id = some I → ∃ v, σ I = some v ∧ S.holeOk done p.fut p.body fb v
+
+theorem Adm.mono {S : Sem} {done : List FId} {σ : List Nat → Option Str} {D D' : List Seg} {out out' : List PendOoo}
+    (h : Adm S done σ D out) (hD : ∀ g ∈ D', g ∈ D) (ho : ∀ p ∈ out', p ∈ out) : Adm S done σ D' out' :=
+  fun I fb hg p hp hI => h I fb (hD _ hg) p (ho p hp) hI
+
+/-- the final document -/
+def finalSem : Sem where
+  P := fun _ ops x => x = oooDocOps ops
+  holeOk := fun _ _ body _ v => v = oooDocOps body
+  nil := fun _ => by simp [oooDocOps]
+  sync := by intro _ s os d h; simp [oooDocOps, oooDocOp, h]
+  nextId := by intro _ os d h; simp [oooDocOps, oooDocOp, h]
+  triple := by intro _ s fut body nonce os d v hv h; simp [oooDocOps, oooDocOp, hv, h]
+  iteT := by intro _ fut t e os dt d _ ht h; simp [oooDocOps, oooDocOp, ht, h]
+  iteE := by intro _ fut t e os de d hte he h; simp [oooDocOps, oooDocOp, he, h, hte]
+  sub := by intro _ body os db d hb h; simp [oooDocOps, oooDocOp, hb, h]
+  resolve := by intro _ _ _ _ _ _ h; exact h
+
+theorem ready_deps {env : Env} {fut : Fut} {born : Nat} (h : fut.ready env born = true) :
+    ∀ x ∈ fut.deps, x ∈ env.done := by
+  unfold Fut.ready at h
+  simp only [Bool.and_eq_true, List.all_eq_true] at h
+  intro x hx
+  simpa using h.1 x hx
 
 theorem pushFallback_str (b : Builder) (ids : List Nat) (s : Str) (h : b.id = some ids) :
     (b.pushFallback s).syncBuf = b.syncBuf ++ (Seg.hole ids s).str ∧ (b.pushFallback s).chunks = b.chunks ∧
@@ -251,12 +292,13 @@ theorem exec_segs {ops : List Op} (hw : OooWf ops) (env : Env) : ∀ (b : Builde
       (execOps env ops b).chunks = b.chunks ++ ps.map Chunk.ooo ∧
       (∃ ids', (execOps env ops b).id = some ids') ∧
       (∀ g ∈ segs, g.ok) ∧ (holeIds segs).map some = ps.map (·.id) ∧ (∀ p ∈ ps, NodeOk p) ∧
-      ∀ σ, Knows σ ps → fill σ segs = oooDocOps ops := by
+      ∀ (S : Sem) (done : List FId), (∀ x ∈ env.done, x ∈ done) → ∀ σ, Adm S done σ segs ps →
+        S.P done ops (fill σ segs) := by
   induction hw with
   | nil =>
     intro b _ hid
     exact ⟨[], [], by simp [execOps, segsStr], by simp [execOps], hid, by simp, rfl, by simp,
-      fun _ _ => by simp [fill, oooDocOps]⟩
+      fun S done _ _ _ => by simpa [fill] using S.nil done⟩
   | @sync s os _ ih =>
     intro b hc hid
     simp only [cleanOps, cleanOp, Bool.and_eq_true] at hc
@@ -269,7 +311,9 @@ theorem exec_segs {ops : List Op} (hw : OooWf ops) (env : Env) : ∀ (b : Builde
       rcases hg with hg | hg
       · subst hg; exact clean_of_bool hc.1
       · exact h4 g hg
-    · intro σ hσ; simp [fill, oooDocOps, oooDocOp, h7 σ hσ]
+    · intro S done hd σ hσ
+      have := h7 S done hd σ (hσ.mono (fun g hg => by simp [hg]) (fun p hp => hp))
+      simpa [fill] using S.sync (s := s) this
   | @nextId os _ ih =>
     intro b hc hid
     simp only [cleanOps, cleanOp, Bool.true_and] at hc
@@ -278,7 +322,8 @@ theorem exec_segs {ops : List Op} (hw : OooWf ops) (env : Env) : ∀ (b : Builde
     refine ⟨segs, ps, ?_, ?_, h3, h4, h5, h6, ?_⟩
     · simp only [execOps, execOp]; rw [h1]; simp [Builder.nextId]
     · simp only [execOps, execOp]; rw [h2]; simp [Builder.nextId]
-    · intro σ hσ; simp [oooDocOps, oooDocOp, h7 σ hσ]
+    · intro S done hd σ hσ
+      exact S.nextId (h7 S done hd σ hσ)
   | @triple s fut nonce body os hbody _ _ ih =>
     intro b hc hid
     simp only [cleanOps, cleanOp, Bool.and_eq_true, Bool.true_and] at hc
@@ -314,11 +359,11 @@ theorem exec_segs {ops : List Op} (hw : OooWf ops) (env : Env) : ∀ (b : Builde
       · subst hq
         exact ⟨rfl, by simpa [cleanNonce] using hcn, hbody, hcb⟩
       · exact h6 q hq
-    · intro σ hσ
-      have hp := hσ p (by simp) _ hpid
-      have := h7 σ (fun q hq => hσ q (by simp [hq]))
-      simp [fill, oooDocOps, oooDocOp, hp, nodeDoc, this]
-      rfl
+    · intro S done hd σ hσ
+      obtain ⟨v, hv, hok⟩ := hσ (Builder.bumpLast ids) s (by simp) p (by simp) hpid
+      have := h7 S done hd σ (hσ.mono (fun g hg => by simp [hg]) (fun q hq => by simp [hq]))
+      have := S.triple (nonce := nonce) hok this
+      simpa [fill, hv] using this
   | @ite fut t e os _ _ hte _ iht ihe ihos =>
     intro b hc hid
     simp only [cleanOps, cleanOp, Bool.and_eq_true] at hc
@@ -336,9 +381,12 @@ theorem exec_segs {ops : List Op} (hw : OooWf ops) (env : Env) : ∀ (b : Builde
       · intro q hq; rcases List.mem_append.1 hq with hq | hq
         · exact a6 q hq
         · exact b6 q hq
-      · intro σ hσ
-        rw [fill_append, a7 σ (fun q hq => hσ q (by simp [hq])), b7 σ (fun q hq => hσ q (by simp [hq]))]
-        simp [oooDocOps, oooDocOp]
+      · intro S done hd σ hσ
+        rename_i hready
+        rw [fill_append]
+        exact S.iteT (fun x hx => hd x (ready_deps hready x hx))
+          (a7 S done hd σ (hσ.mono (fun g hg => by simp [hg]) (fun q hq => by simp [hq])))
+          (b7 S done hd σ (hσ.mono (fun g hg => by simp [hg]) (fun q hq => by simp [hq])))
     · obtain ⟨segs1, ps1, a1, a2, a3, a4, a5, a6, a7⟩ := ihe b hc.1.2 hid
       obtain ⟨segs2, ps2, b1, b2, b3, b4, b5, b6, b7⟩ := ihos _ hc.2 a3
       refine ⟨segs1 ++ segs2, ps1 ++ ps2, ?_, ?_, b3, ?_, ?_, ?_, ?_⟩
@@ -351,9 +399,11 @@ theorem exec_segs {ops : List Op} (hw : OooWf ops) (env : Env) : ∀ (b : Builde
       · intro q hq; rcases List.mem_append.1 hq with hq | hq
         · exact a6 q hq
         · exact b6 q hq
-      · intro σ hσ
-        rw [fill_append, a7 σ (fun q hq => hσ q (by simp [hq])), b7 σ (fun q hq => hσ q (by simp [hq]))]
-        simp [oooDocOps, oooDocOp, hte]
+      · intro S done hd σ hσ
+        rw [fill_append]
+        exact S.iteE hte
+          (a7 S done hd σ (hσ.mono (fun g hg => by simp [hg]) (fun q hq => by simp [hq])))
+          (b7 S done hd σ (hσ.mono (fun g hg => by simp [hg]) (fun q hq => by simp [hq])))
   | @sub body os _ _ ihb ihos =>
     intro b hc hid
     simp only [cleanOps, cleanOp, Bool.and_eq_true] at hc
@@ -384,9 +434,11 @@ theorem exec_segs {ops : List Op} (hw : OooWf ops) (env : Env) : ∀ (b : Builde
     · intro q hq; rcases List.mem_append.1 hq with hq | hq
       · exact a6 q hq
       · exact b6 q hq
-    · intro σ hσ
-      rw [fill_append, a7 σ (fun q hq => hσ q (by simp [hq])), b7 σ (fun q hq => hσ q (by simp [hq]))]
-      simp [oooDocOps, oooDocOp]
+    · intro S done hd σ hσ
+      rw [fill_append]
+      exact S.sub
+        (a7 S done hd σ (hσ.mono (fun g hg => by simp [hg]) (fun q hq => by simp [hq])))
+        (b7 S done hd σ (hσ.mono (fun g hg => by simp [hg]) (fun q hq => by simp [hq])))
 
 
 /-! ### the resolved out-of-order chunk and the two splice loops -/
@@ -423,7 +475,8 @@ theorem resolveOoo_segs (env : Env) (p : PendOoo) (hp : NodeOk p) (I : List Nat)
       (resolveOoo env p).id = piecesStr I ∧ (resolveOoo env p).replace = true ∧ (resolveOoo env p).nonce = none ∧
       (resolveOoo env p).chunks = ps.map Chunk.ooo ++ tailChunk (segsStr segs) ∧
       (∀ g ∈ segs, g.ok) ∧ (holeIds segs).map some = ps.map (·.id) ∧ (∀ q ∈ ps, NodeOk q) ∧
-      (∀ σ, Knows σ ps → fill σ segs = nodeDoc p) ∧
+      (∀ (S : Sem) (done : List FId), (∀ x ∈ env.done, x ∈ done) → ∀ σ, Adm S done σ segs ps →
+        S.P done p.body (fill σ segs)) ∧
       (∀ i ∈ holeIds segs, ∃ j, 1 ≤ j ∧ i = I ++ [j]) ∧ (holeIds segs).Nodup := by
   have hids := resolveOoo_ids env p I hI hp.wf
   unfold resolveOoo at hids ⊢
@@ -591,8 +644,8 @@ theorem items_of_empty : ∀ {B : List Item}, itemsStr B = [] → allIds B = [] 
     have h0 : tplOpen ≠ [] := by decide
     exact absurd this.1.1 h0
 
-structure OInv (E Y : Str) (b : Builder) (ys bs : List Item) (tail : List Seg) (cs : List PendOoo)
-    (σ : List Nat → Option Str) : Prop where
+structure OInv (S : Sem) (prog : List Op) (done : List FId) (Y : Str) (b : Builder) (ys bs : List Item)
+    (tail : List Seg) (cs : List PendOoo) : Prop where
   hY : Y = itemsStr ys
   hB : b.syncBuf = itemsStr bs
   hP : b.pending = none
@@ -604,45 +657,54 @@ structure OInv (E Y : Str) (b : Builder) (ys bs : List Item) (tail : List Seg) (
   okN : ∀ p ∈ cs ++ b.pendingOoo, NodeOk p ∧ ∃ I, p.id = some I
   ndOut : ((cs ++ b.pendingOoo).map (·.id)).Nodup
   mem : ∀ I, I ∈ holeIds (clientS [] (ys ++ bs) ++ tail) ↔ ∃ p ∈ cs ++ b.pendingOoo, p.id = some I
-  knows : Knows σ (cs ++ b.pendingOoo)
-  doc : fill σ (clientS [] (ys ++ bs) ++ tail) = E
+  /-- whatever admissible values the holes of the unresolved nodes are given — now or after more futures have
+      completed — the client's document reads as an admissible document of the program -/
+  sem : ∀ done', (∀ x ∈ done, x ∈ done') → ∀ σ,
+    Adm S done' σ (clientS [] (ys ++ bs) ++ tail) (cs ++ b.pendingOoo) →
+    S.P done' prog (fill σ (clientS [] (ys ++ bs) ++ tail))
   outTpl : ∀ p ∈ cs ++ b.pendingOoo, ∀ I, p.id = some I → I ∉ tplIds (ys ++ bs)
   fresh : ∀ p ∈ cs ++ b.pendingOoo, ∀ I, p.id = some I →
     ∀ K ∈ allIds (ys ++ bs) ++ holeIds tail ++ tplIds (ys ++ bs), ¬ properPrefix I K
   inTpl : ∀ I ∈ contentIds bs, ∃ p ∈ cs, p.id = some I
 
-/-- the stream state `b`, having yielded `Y`, will end in the document `E` -/
-def ORel (E Y : Str) (b : Builder) : Prop :=
-  ∃ ys bs tail cs σ, OInv E Y b ys bs tail cs σ
+/-- the stream state `b`, having yielded `Y` while the futures `done` completed, reads as `prog` under `S` -/
+def ORel (S : Sem) (prog : List Op) (done : List FId) (Y : Str) (b : Builder) : Prop :=
+  ∃ ys bs tail cs, OInv S prog done Y b ys bs tail cs
+
+/-- more futures have completed -/
+theorem OInv.weaken {S prog done done' Y b ys bs tail cs} (h : OInv S prog done Y b ys bs tail cs)
+    (hd : ∀ x ∈ done, x ∈ done') : OInv S prog done' Y b ys bs tail cs :=
+  { h with sem := fun d'' hd'' => h.sem d'' (fun x hx => hd'' x (hd x hx)) }
 
 /-- yield the buffer -/
-theorem OInv.flush {E Y b ys bs tail cs σ} (h : OInv E Y b ys bs tail cs σ) :
-    OInv E (Y ++ b.syncBuf) { b with syncBuf := [] } (ys ++ bs) [] tail cs σ := by
+theorem OInv.flush {S prog done Y b ys bs tail cs} (h : OInv S prog done Y b ys bs tail cs) :
+    OInv S prog done (Y ++ b.syncBuf) { b with syncBuf := [] } (ys ++ bs) [] tail cs := by
   refine ⟨by rw [h.hY, h.hB, itemsStr_append], rfl, h.hP, h.hC, by simpa using h.okI, h.okT, by simpa using h.ndText,
-    by simpa using h.ndTpl, h.okN, h.ndOut, by simpa using h.mem, h.knows, by simpa using h.doc,
+    by simpa using h.ndTpl, h.okN, h.ndOut, by simpa using h.mem, by simpa using h.sem,
     by simpa using h.outTpl, by simpa using h.fresh, by simp [contentIds]⟩
 
 /-- the out-of-order nodes only matter as a set -/
-theorem OInv.perm {E Y b ys bs tail cs σ} (h : OInv E Y b ys bs tail cs σ) (cs' po' : List PendOoo)
+theorem OInv.perm {S prog done Y b ys bs tail cs} (h : OInv S prog done Y b ys bs tail cs) (cs' po' : List PendOoo)
     (chunks' : List Chunk) (hch : chunks' = cs'.map Chunk.ooo ++ tailChunk (segsStr tail))
     (hperm : (cs' ++ po').Perm (cs ++ b.pendingOoo))
     (hin : ∀ I ∈ contentIds bs, ∃ p ∈ cs', p.id = some I) :
-    OInv E Y { b with chunks := chunks', pendingOoo := po' } ys bs tail cs' σ := by
+    OInv S prog done Y { b with chunks := chunks', pendingOoo := po' } ys bs tail cs' := by
   have hm : ∀ p, p ∈ cs' ++ po' ↔ p ∈ cs ++ b.pendingOoo := fun p => hperm.mem_iff
-  refine ⟨h.hY, h.hB, h.hP, hch, h.okI, h.okT, h.ndText, h.ndTpl, ?_, ?_, ?_, ?_, h.doc, ?_, ?_, hin⟩
+  refine ⟨h.hY, h.hB, h.hP, hch, h.okI, h.okT, h.ndText, h.ndTpl, ?_, ?_, ?_, ?_, ?_, ?_, hin⟩
   · intro p hp; exact h.okN p ((hm p).1 hp)
   · exact (List.Perm.nodup_iff (hperm.map _)).2 h.ndOut
   · intro I; rw [h.mem I]
     constructor
     · rintro ⟨p, hp, hI⟩; exact ⟨p, (hm p).2 hp, hI⟩
     · rintro ⟨p, hp, hI⟩; exact ⟨p, (hm p).1 hp, hI⟩
-  · intro p hp; exact h.knows p ((hm p).1 hp)
+  · intro d' hd' σ hσ
+    exact h.sem d' hd' σ (hσ.mono (fun g hg => hg) (fun p hp => (hm p).2 hp))
   · intro p hp; exact h.outTpl p ((hm p).1 hp)
   · intro p hp; exact h.fresh p ((hm p).1 hp)
 
 /-- the text chunk at the end of the queue moves into the buffer -/
-theorem OInv.takeTail {E Y b ys bs tail σ} (h : OInv E Y b ys bs tail [] σ) :
-    OInv E Y { b with syncBuf := b.syncBuf ++ segsStr tail, chunks := [] } ys (bs ++ segItems tail) [] [] σ := by
+theorem OInv.takeTail {S prog done Y b ys bs tail} (h : OInv S prog done Y b ys bs tail []) :
+    OInv S prog done Y { b with syncBuf := b.syncBuf ++ segsStr tail, chunks := [] } ys (bs ++ segItems tail) [] [] := by
   have e1 : clientS [] (ys ++ (bs ++ segItems tail)) ++ [] = clientS [] (ys ++ bs) ++ tail := by
     rw [← List.append_assoc, clientS_append, clientS_segItems]; simp
   have e2 : allIds (ys ++ (bs ++ segItems tail)) ++ holeIds [] = allIds (ys ++ bs) ++ holeIds tail := by
@@ -650,7 +712,7 @@ theorem OInv.takeTail {E Y b ys bs tail σ} (h : OInv E Y b ys bs tail [] σ) :
   have e3 : tplIds (ys ++ (bs ++ segItems tail)) = tplIds (ys ++ bs) := by
     rw [← List.append_assoc, tplIds_append, tplIds_segItems]; simp
   refine ⟨h.hY, ?_, h.hP, by simp [tailChunk, segsStr], ?_, by simp, by rw [e2]; exact h.ndText, by rw [e3]; exact h.ndTpl,
-    h.okN, h.ndOut, by rw [e1]; exact h.mem, h.knows, by rw [e1]; exact h.doc, by rw [e3]; exact h.outTpl, ?_, ?_⟩
+    h.okN, h.ndOut, by rw [e1]; exact h.mem, by rw [e1]; exact h.sem, by rw [e3]; exact h.outTpl, ?_, ?_⟩
   · simp [itemsStr_append, itemsStr_segItems, h.hB]
   · intro i hi
     rw [← List.append_assoc] at hi
@@ -667,7 +729,6 @@ theorem OInv.takeTail {E Y b ys bs tail σ} (h : OInv E Y b ys bs tail [] σ) :
   · intro I hI
     rw [contentIds_append, contentIds_segItems] at hI
     exact h.inTpl I (by simpa using hI)
-
 
 /-! ### resolving one out-of-order node -/
 
@@ -702,59 +763,92 @@ theorem find_node {ps : List PendOoo} (hn : (ps.map (·.id)).Nodup) {q : PendOoo
     simp only [beq_iff_eq] at h1
     rw [eq_of_nodup_map_id hn hq h2 (hJ.trans h1.symm)]
 
+theorem mem_hole_holeIds {I : List Nat} {fb : Str} : ∀ {D : List Seg}, Seg.hole I fb ∈ D → I ∈ holeIds D
+  | [], h => by cases h
+  | .lit s :: gs, h => by
+    simp only [List.mem_cons] at h
+    rcases h with h | h
+    · cases h
+    · simpa [holeIds] using mem_hole_holeIds h
+  | .hole J fb' :: gs, h => by
+    simp only [List.mem_cons] at h
+    rcases h with h | h
+    · cases h; simp [holeIds]
+    · simp [holeIds, mem_hole_holeIds h]
+
 /-- resolving the node with id `I`: its hole is replaced by the node's segments, its children become outstanding -/
-theorem resolve_sem {σ : List Nat → Option Str} {D0 tail segsT : List Seg} {I : List Nat} {p : PendOoo}
-    {psC rest cs' : List PendOoo}
+theorem resolve_sem (S : Sem) {done : List FId} {D0 tail segsT : List Seg} {I : List Nat} {p : PendOoo}
+    {psC rest cs' : List PendOoo} {Q : Str → Prop}
     (hI : I ∈ holeIds D0) (hnd : (holeIds (D0 ++ tail)).Nodup) (hp : p.id = some I)
     (hmem : ∀ J, J ∈ holeIds (D0 ++ tail) ↔ ∃ q ∈ p :: rest, q.id = some J)
     (hout : ((p :: rest).map (·.id)).Nodup)
-    (hknows : Knows σ (p :: rest))
-    (hlink : (holeIds segsT).map some = psC.map (·.id)) (hndC : (holeIds segsT).Nodup)
-    (hfill : ∀ σ', Knows σ' psC → fill σ' segsT = nodeDoc p)
+    (hsem : ∀ σ, Adm S done σ (D0 ++ tail) (p :: rest) → Q (fill σ (D0 ++ tail)))
+    (hlink : (holeIds segsT).map some = psC.map (·.id))
+    (hfill : ∀ σ', Adm S done σ' segsT psC → S.P done p.body (fill σ' segsT))
+    (hready : ∀ x ∈ p.fut.deps, x ∈ done)
     (hfresh : ∀ K ∈ holeIds segsT, K ∉ holeIds (D0 ++ tail))
     (hcs : ∀ q, q ∈ cs' ↔ q ∈ psC) :
-    ∃ σ', Knows σ' (cs' ++ rest) ∧
-      fill σ' (substHole I segsT D0 ++ tail) = fill σ (D0 ++ tail) ∧
-      (∀ J, J ∈ holeIds (substHole I segsT D0 ++ tail) ↔ ∃ q ∈ cs' ++ rest, q.id = some J) := by
+    (∀ σ', Adm S done σ' (substHole I segsT D0 ++ tail) (cs' ++ rest) →
+      Q (fill σ' (substHole I segsT D0 ++ tail))) ∧
+    (∀ J, J ∈ holeIds (substHole I segsT D0 ++ tail) ↔ ∃ q ∈ cs' ++ rest, q.id = some J) := by
   obtain ⟨X, fb, Z, h1, hX, h3⟩ := substHole_split (c := segsT) hI
-  have hndC' : (psC.map (·.id)).Nodup := by
-    rw [← hlink]; exact nodup_map_some hndC
-  let σ' : List Nat → Option Str := fun J =>
-    if J ∈ holeIds segsT then (psC.find? (fun q => q.id == some J)).map nodeDoc else σ J
-  have hσold : ∀ J, J ∈ holeIds (D0 ++ tail) → σ' J = σ J := by
-    intro J hJ
-    have : J ∉ holeIds segsT := fun h => hfresh J h hJ
-    simp [σ', this]
-  have hkC : Knows σ' psC := by
-    intro q hq J hJ
-    have hJm : J ∈ holeIds segsT := by
-      have : some J ∈ psC.map (·.id) := List.mem_map.2 ⟨q, hq, hJ⟩
-      rw [← hlink] at this
-      obtain ⟨J', hJ', he⟩ := List.mem_map.1 this
-      cases he; exact hJ'
-    simp only [σ', hJm, if_true, find_node hndC' hq hJ, Option.map_some]
-  refine ⟨σ', ?_, ?_, ?_⟩
-  · intro q hq J hJ
-    rcases List.mem_append.1 hq with hq | hq
-    · exact hkC q ((hcs q).1 hq) J hJ
-    · have hJD : J ∈ holeIds (D0 ++ tail) := (hmem J).2 ⟨q, by simp [hq], hJ⟩
-      rw [hσold J hJD]
-      exact hknows q (by simp [hq]) J hJ
-  · rw [h3, h1]
-    have hσI : σ I = some (nodeDoc p) := hknows p (by simp) I hp
-    have hXm : ∀ J ∈ holeIds X, σ' J = σ J := fun J hJ => hσold J (by rw [h1]; simp [holeIds_append, hJ])
-    have hZm : ∀ J ∈ holeIds Z, σ' J = σ J := fun J hJ => hσold J (by rw [h1]; simp [holeIds_append, holeIds, hJ])
-    have hTm : ∀ J ∈ holeIds tail, σ' J = σ J := fun J hJ => hσold J (by simp [holeIds_append, hJ])
-    simp only [fill_append, fill, hσI]
-    rw [fill_congr hXm, fill_congr hZm, fill_congr hTm, hfill σ' hkC]
-    simp
+  have hIZ : I ∉ holeIds Z ∧ I ∉ holeIds tail := by
+    rw [h1] at hnd
+    simp only [holeIds_append, holeIds, List.append_assoc] at hnd
+    have := (List.nodup_append.1 hnd).2.1
+    have := (List.nodup_cons.1 this).1
+    simpa using this
+  have hIseg : I ∉ holeIds segsT := by
+    intro hm
+    exact hfresh I hm (by rw [holeIds_append]; exact List.mem_append_left _ hI)
+  refine ⟨?_, ?_⟩
+  · intro σ' hσ'
+    rw [h3] at hσ' ⊢
+    -- the value of the resolved node's hole: its segments, read under σ'
+    let σ : List Nat → Option Str := fun J => if J = I then some (fill σ' segsT) else σ' J
+    have hσne : ∀ J, J ≠ I → σ J = σ' J := fun J hJ => by simp [σ, hJ]
+    have hadmC : Adm S done σ' segsT psC :=
+      hσ'.mono (fun g hg => by simp [hg]) (fun q hq => by simp [(hcs q).2 hq])
+    have hadm : Adm S done σ (D0 ++ tail) (p :: rest) := by
+      intro J fbJ hg q hq hqJ
+      simp only [List.mem_cons] at hq
+      rcases hq with rfl | hq
+      · -- the resolved node itself
+        rw [hp] at hqJ; cases hqJ
+        have hfbeq : fbJ = fb := by
+          -- the only hole with id I is the one at the split
+          rw [h1] at hg
+          simp only [List.mem_append, List.mem_cons] at hg
+          rcases hg with (hg | hg | hg) | hg
+          · exact absurd (mem_hole_holeIds hg) hX
+          · cases hg; rfl
+          · exact absurd (mem_hole_holeIds hg) hIZ.1
+          · exact absurd (mem_hole_holeIds hg) hIZ.2
+        subst hfbeq
+        exact ⟨fill σ' segsT, by simp [σ], S.resolve hready (hfill σ' hadmC)⟩
+      · have hne : J ≠ I := by
+          intro he; subst he
+          simp only [List.map_cons, List.nodup_cons, List.mem_map, not_exists, not_and] at hout
+          exact hout.1 q hq (hqJ.trans hp.symm)
+        rw [hσne J hne]
+        refine hσ' J fbJ ?_ q (by simp [hq]) hqJ
+        rw [h1] at hg
+        simp only [List.mem_append, List.mem_cons] at hg ⊢
+        rcases hg with (hg | hg | hg) | hg
+        · exact Or.inl (Or.inl (Or.inl hg))
+        · cases hg; exact absurd rfl hne
+        · exact Or.inl (Or.inr hg)
+        · exact Or.inr hg
+    have := hsem σ hadm
+    have hXm : ∀ J ∈ holeIds X, σ J = σ' J := fun J hJ => hσne J (fun he => hX (he ▸ hJ))
+    have hZm : ∀ J ∈ holeIds Z, σ J = σ' J := fun J hJ => hσne J (fun he => hIZ.1 (he ▸ hJ))
+    have hTm : ∀ J ∈ holeIds tail, σ J = σ' J := fun J hJ => hσne J (fun he => hIZ.2 (he ▸ hJ))
+    have hσI : σ I = some (fill σ' segsT) := by simp [σ]
+    rw [h1] at this
+    simp only [fill_append, fill, hσI] at this
+    rw [fill_congr hXm, fill_congr hZm, fill_congr hTm] at this
+    simpa [fill_append] using this
   · intro J
-    have hIZ : I ∉ holeIds Z ∧ I ∉ holeIds tail := by
-      rw [h1] at hnd
-      simp only [holeIds_append, holeIds, List.append_assoc] at hnd
-      have := (List.nodup_append.1 hnd).2.1
-      have := (List.nodup_cons.1 this).1
-      simpa using this
     rw [h3]
     simp only [holeIds_append, List.mem_append]
     constructor
@@ -799,7 +893,6 @@ theorem resolve_sem {σ : List Nat → Option Str} {D0 tail segsT : List Seg} {I
         · exact Or.inl (Or.inr hJD)
         · exact Or.inr hJD
 
-
 theorem pp_trans {A B C : List Nat} (h1 : properPrefix A B) (h2 : properPrefix B C) : properPrefix A C := by
   obtain ⟨t, ht, rfl⟩ := h1
   obtain ⟨u, _, rfl⟩ := h2
@@ -831,11 +924,12 @@ theorem not_pp_self_snoc {I : List Nat} {j : Nat} : ¬ properPrefix (I ++ [j]) I
 
 /-- re-establishing the invariant after the node `p` (id `I`) at the head of the queue has been resolved into the
     segments `segsT` and the child nodes `psC`, given what the concrete step did to the buffer -/
-theorem OInv.resolved {E Y b b' ys bs bs' tail σ p rest I segsT psC cs'}
-    (h : OInv E Y b ys bs tail [] σ) (hpo : b.pendingOoo = p :: rest) (hpI : p.id = some I)
+theorem OInv.resolved {S prog done Y b b' ys bs bs' tail p rest I segsT psC cs'}
+    (h : OInv S prog done Y b ys bs tail []) (hpo : b.pendingOoo = p :: rest) (hpI : p.id = some I)
     (htail : segsStr tail = [])
     (_hokT : ∀ g ∈ segsT, g.ok) (hlink : (holeIds segsT).map some = psC.map (·.id)) (hokC : ∀ q ∈ psC, NodeOk q)
-    (hfill : ∀ σ', Knows σ' psC → fill σ' segsT = nodeDoc p)
+    (hfill : ∀ done', (∀ x ∈ done, x ∈ done') → ∀ σ', Adm S done' σ' segsT psC → S.P done' p.body (fill σ' segsT))
+    (hready : ∀ x ∈ p.fut.deps, x ∈ done)
     (hshape : ∀ i ∈ holeIds segsT, ∃ j, 1 ≤ j ∧ i = I ++ [j]) (hndC : (holeIds segsT).Nodup)
     (hB' : b'.syncBuf = itemsStr bs') (hP' : b'.pending = none)
     (hC' : b'.chunks = cs'.map Chunk.ooo ++ tailChunk (segsStr tail)) (hpo' : b'.pendingOoo = rest)
@@ -846,7 +940,7 @@ theorem OInv.resolved {E Y b b' ys bs bs' tail σ p rest I segsT psC cs'}
     (hnd' : (allIds (ys ++ bs') ++ holeIds tail).Nodup)
     (htpl : ∀ K ∈ tplIds (ys ++ bs'), K ∈ tplIds (ys ++ bs) ∨ K = I) (hndt' : (tplIds (ys ++ bs')).Nodup)
     (hin' : ∀ J ∈ contentIds bs', ∃ q ∈ cs', q.id = some J) :
-    ∃ σ', OInv E Y b' ys bs' tail cs' σ' := by
+    OInv S prog done Y b' ys bs' tail cs' := by
   have hpmem : p ∈ [] ++ b.pendingOoo := by simp [hpo]
   have hholeT : holeIds tail = [] := holeIds_of_empty htail
   have hcs : ∀ q, q ∈ cs' ↔ q ∈ psC := fun q => hperm.mem_iff
@@ -874,8 +968,16 @@ theorem OInv.resolved {E Y b b' ys bs bs' tail σ p rest I segsT psC cs'}
       · exact hchild K hK (by simp [h0])
     · exact hchild K hK (by simp [hm])
   have hout : ((p :: rest).map (·.id)).Nodup := by simpa [hpo] using h.ndOut
-  obtain ⟨σ', hk', hf', hm'⟩ := resolve_sem (σ := σ) (tail := tail) (rest := rest) (cs' := cs') hID0 hndD hpI
-    (by simpa [hpo] using h.mem) hout (by simpa [hpo] using h.knows) hlink hndC hfill hchildD hcs
+  have hsem' : ∀ done', (∀ x ∈ done, x ∈ done') →
+      (∀ σ', Adm S done' σ' (substHole I segsT (clientS [] (ys ++ bs)) ++ tail) (cs' ++ rest) →
+        S.P done' prog (fill σ' (substHole I segsT (clientS [] (ys ++ bs)) ++ tail))) := by
+    intro done' hd'
+    exact (resolve_sem S (done := done') (tail := tail) (rest := rest) (cs' := cs') (Q := S.P done' prog) hID0 hndD hpI
+      (by simpa [hpo] using h.mem) hout (by simpa [hpo] using h.sem done' hd') hlink (hfill done' hd')
+      (fun x hx => hd' x (hready x hx)) hchildD hcs).1
+  have hm' := (resolve_sem S (done := done) (tail := tail) (rest := rest) (cs' := cs') (Q := S.P done prog) hID0 hndD hpI
+      (by simpa [hpo] using h.mem) hout (by simpa [hpo] using h.sem done (fun x hx => hx)) hlink
+      (hfill done (fun x hx => hx)) hready hchildD hcs).2
   have hidC : ∀ q ∈ psC, ∃ K, q.id = some K ∧ K ∈ holeIds segsT := by
     intro q hq
     have : q.id ∈ (holeIds segsT).map some := by rw [hlink]; exact List.mem_map.2 ⟨q, hq, rfl⟩
@@ -892,7 +994,7 @@ theorem OInv.resolved {E Y b b' ys bs bs' tail σ p rest I segsT psC cs'}
     · intro he; subst he
       simp only [List.map_cons, List.nodup_cons, List.mem_map, not_exists, not_and] at hout
       exact hout.1 q hq (hJ.trans hpI.symm)
-  refine ⟨σ', h.hY, hB', hP', hC', hok', h.okT, hnd', hndt', ?_, ?_, ?_, ?_, ?_, ?_, ?_, hin'⟩
+  refine ⟨h.hY, hB', hP', hC', hok', h.okT, hnd', hndt', ?_, ?_, ?_, ?_, ?_, ?_, hin'⟩
   · -- okN
     intro q hq
     rw [hpo'] at hq
@@ -911,8 +1013,7 @@ theorem OInv.resolved {E Y b b' ys bs bs' tail σ p rest I segsT psC cs'}
       have := hrestJ q' hq' K (he ▸ hK)
       exact hchild K hKm (by simp [this.1])
   · rw [hcl, hpo']; exact hm'
-  · rw [hpo']; exact hk'
-  · rw [hcl, hf']; exact h.doc
+  · rw [hcl, hpo']; exact hsem'
   · -- outTpl
     intro q hq J hJ hmem
     rw [hpo'] at hq
